@@ -30,7 +30,9 @@ type rangeAggIterator struct {
 	grouper     grouperFunc
 	groupLabels []logql.Label
 	// window state
-	window   map[GroupingKey]Series
+	window map[GroupingKey]Series
+	// order keeps window keys in insertion order, to make iteration deterministic.
+	order    []GroupingKey
 	interval time.Duration
 	offset   time.Duration
 	entry    SampledEntry
@@ -102,7 +104,8 @@ func (i *rangeAggIterator) Next(r *Step) bool {
 	// Aggregate the window.
 	r.Timestamp = otelstorage.NewTimestampFromTime(current)
 	r.Samples = r.Samples[:0]
-	for _, s := range i.window {
+	for _, key := range i.order {
+		s := i.window[key]
 		r.Samples = append(r.Samples, Sample{
 			Data: i.agg.Aggregate(s.Data),
 			Set:  s.Set,
@@ -113,7 +116,9 @@ func (i *rangeAggIterator) Next(r *Step) bool {
 }
 
 func (i *rangeAggIterator) clearWindow(windowStart time.Time) {
-	for key, s := range i.window {
+	order := i.order[:0]
+	for _, key := range i.order {
+		s := i.window[key]
 		// Filter series data in place: timestamp should be >= windowStart.
 		n := 0
 		for _, p := range s.Data {
@@ -131,8 +136,10 @@ func (i *rangeAggIterator) clearWindow(windowStart time.Time) {
 			delete(i.window, key)
 		} else {
 			i.window[key] = s
+			order = append(order, key)
 		}
 	}
+	i.order = order
 }
 
 func (i *rangeAggIterator) fillWindow(windowStart, windowEnd time.Time) {
@@ -165,6 +172,7 @@ func (i *rangeAggIterator) fillWindow(windowStart, windowEnd time.Time) {
 		ser, ok := i.window[groupKey]
 		if !ok {
 			ser.Set = metric
+			i.order = append(i.order, groupKey)
 		}
 		ser.Data = append(ser.Data, FPoint{
 			Timestamp: e.Timestamp,
